@@ -4,7 +4,8 @@
    Text = list of code points; networks 0 mainnet, 1 testnet, 2 signet, 3 regtest. *)
 From V Require Import Base.Prelude Base.Ints Base.Lfsr Model.Helper Model.Script Model.Base58
   Model.Bech32 Model.Address
-  Proofs.Base58P Proofs.PolymodP Proofs.Bech32Sweep Proofs.Bech32DetectP Proofs.Bech32P.
+  Proofs.Base58P Proofs.PolymodP Proofs.Bech32Sweep Proofs.Bech32DetectP Proofs.Bech32P
+  Proofs.AddressP.
 
 (* ------------------------------------------------------------------ Base58Check *)
 
@@ -148,6 +149,55 @@ Theorem C09_segwit_detects_two :
                decode_bech32 (hrp ++ [49] ++ d') = Err.
 Proof. exact segwit_detects_two. Qed.
 Print Assumptions C09_segwit_detects_two.
+
+(* ------------------------------------------------------------------ addresses and WIF *)
+
+(* P2WPKH (t=2, 20 bytes), P2WSH (t=3, 32 bytes), P2TR (t=4, 32 bytes) on the four networks:
+   script -> address -> script with address_to_script_pubkey, and with TxOut.to_address on
+   mainnet/testnet/signet; on regtest TxOut.to_address raises (it only recognises "bc1"/"tb1":
+   known finding K-C09-to_address-regtest).  Since decode_bech32 of the address returns
+   (version, program), different scripts of these templates have different addresses. *)
+Theorem C09_segwit_address_roundtrip :
+  forall (hash256 : bytes -> bytes) t h net,
+  seg_template t h -> 0 <= net <= 3 ->
+  exists a, segwit_address (seg_script t h) net = Ok a /\
+            decode_bech32 a = Ok (net_back net, seg_version t, h) /\
+            address_to_script_pubkey hash256 a = Ok (seg_script t h) /\
+            (net <> 3 -> to_address_spk hash256 a = Ok (seg_script t h)) /\
+            (net = 3 -> to_address_spk hash256 a = Err).
+Proof. exact segwit_address_roundtrip. Qed.
+Print Assumptions C09_segwit_address_roundtrip.
+
+(* P2PKH (t=0) / P2SH (t=1): the address is Base58Check of version byte :: hash, uses only
+   alphabet characters, and decode_base58 returns the hash.  Partial: the first-character
+   dispatch of address_to_script_pubkey / to_address ('1','m','n' / '2','3') for 20-byte
+   hashes is not proved (correspondence + predicate spk_addr only). *)
+Theorem C09_base58_address_payload_partial :
+  forall (hash256 : bytes -> bytes),
+  (forall x, length (hash256 x) = 32%nat) -> (forall x, bytes_ok (hash256 x)) ->
+  forall t h net, (t = 0 \/ t = 1) -> bytes_ok h ->
+  exists a, (if t =? 0 then p2pkh_address hash256 h net else p2sh_address hash256 h net) = Ok a /\
+            Forall (fun c => In c b58_alphabet) a /\
+            decode_base58 hash256 a = Ok h.
+Proof. exact base58_address_payload. Qed.
+Print Assumptions C09_base58_address_payload_partial.
+
+(* WIF: compressed/uncompressed x mainnet/other.  parse() cannot tell testnet, signet and
+   regtest apart (all use 0xef), as its docstring says: it reports "not mainnet". *)
+Theorem C09_wif_roundtrip :
+  forall (hash256 : bytes -> bytes),
+  (forall x, length (hash256 x) = 32%nat) -> (forall x, bytes_ok (hash256 x)) ->
+  forall secret mainnet compressed, 1 <= secret < secp_n ->
+  exists w, wif_encode hash256 secret mainnet compressed = Ok w /\
+            wif_parse hash256 w = Ok (secret, mainnet, compressed).
+Proof. exact wif_roundtrip. Qed.
+Print Assumptions C09_wif_roundtrip.
+
+Theorem C09_wif_range :
+  forall (hash256 : bytes -> bytes) secret mainnet compressed,
+  ~ (1 <= secret < secp_n) -> wif_encode hash256 secret mainnet compressed = Err.
+Proof. exact wif_range. Qed.
+Print Assumptions C09_wif_range.
 
 (* ------------------------------------------------------------------ non-vacuity *)
 
